@@ -6,8 +6,9 @@ stored edges `((u,v), attrs)`; lookup is symmetric for `Kind.und` (nx.Graph) and
 `Kind.dir` (nx.DiGraph).  Attribute dicts are association lists (`dict.update` = prepend).
 
 Every `MEG.*` function mirrors the Python method of the same name branch by branch (model of the
-tree *after* the `fix:` commits: `adj` is a plain property, `size` accumulates, copy/subgraph drop
-pre-created edge types the original does not have).  Results are `(new state, ok?)` because a
+tree *after* the `fix:` commits: the `adj` cache is reset whenever an edge type is added or removed, so
+`adj` always shows the current layers; `size` accumulates; copy/subgraph drop pre-created edge types the
+original does not have).  Results are `(new state, ok?)` because a
 rejected call (an exception escapes) may already have mutated the object, e.g. `add_edge` adds the
 endpoints before it looks up the edge type. -/
 namespace C02
